@@ -2,6 +2,7 @@ import PdshVerif.Base.Hex
 import PdshVerif.Dshbak.Model
 import PdshVerif.Dshbak.Spec
 import PdshVerif.Dshbak.Options
+import PdshVerif.Dshbak.DirTree
 import Driver.Util
 
 /-! line protocol of the dshbak engine
@@ -90,6 +91,24 @@ def runOpt (line : String) : Option String :=
     pure (String.ofList (tags.map fun t => if fileNameOK t then '1' else '0'))
   | _ => none
 
+/-- `w REPAIRED HEX(DIR) HEX(cwd) HEX(dir node),... HEX(key),... HEXINPUT`: `dshbak -d DIR` on a directory tree
+(`Dshbak/DirTree.lean`): nodes are `/`-joined component paths from a virtual root, the keys are `keys %lines` in the
+order the real perl yields them.  Answer: `ok|fatal` and the files afterwards, `HEX(node)=HEX(line),...;...` -/
+def runTree (line : String) : Option String :=
+  match Driver.words line with
+  | ["w", rep, dir, cwd, dirs, ks, hxin] => do
+    let dir ← unhx dir
+    let cwd ← unhx cwd
+    let dirs ← unhxs dirs
+    let ks ← unhxs ks
+    let files ← (hxin.splitOn "+").mapM (fun x => if x = "-" then some [] else unhx x)
+    let node (s : Str) : Node := if s.isEmpty then [] else splitSlash s
+    let m := processLines (rep.toNat?.getD 0 % 2 = 1) (readFiles files)
+    let r := runWrites (dirs.map node) (node cwd) (perFileWrites dir ks m) []
+    let showNode (n : Node) : String := hx (("/".toList).intercalate n)
+    pure ((if r.2 then "ok " else "fatal ") ++ semis (r.1.map fun e => showNode e.1 ++ "=" ++ hxs e.2))
+  | _ => none
+
 def parseRecs (s : String) : Option (List (Str × Str)) :=
   if s = "~" then some [] else
   (s.splitOn ",").mapM fun r =>
@@ -121,7 +140,7 @@ def runSpec (line : String) : String :=
 def main (args : List String) : IO UInt32 := do
   let stdin ← IO.getStdin
   match args with
-  | ["model"] => Driver.forLines stdin () (fun _ l => ((), ((runHeader l).orElse fun _ => runOpt l).getD (runModel l))); return 0
+  | ["model"] => Driver.forLines stdin () (fun _ l => ((), (((runHeader l).orElse fun _ => runOpt l).orElse fun _ => runTree l).getD (runModel l))); return 0
   | ["spec"] => Driver.forLines stdin () (fun _ l => ((), runSpec l)); return 0
   | _ => IO.eprintln "usage: pdshmodel dshbak model|spec"; return 2
 
